@@ -183,6 +183,10 @@ def run(prog: Program, rep, tier: str) -> None:
     # empty reduced system under report_rcond, fixed in 9ba1357)
     derive_gated(prog)
     derive_observers(prog)
+    # the evaluator is shared by observer code and the algorithm: if it remembers anything between calls, what the display
+    # evaluates changes what the algorithm sees
+    from . import c19 as _c19
+    _c19.evaluator_memoryless(prog, rep)
     if DERIVED_OBSERVERS:
         rep.note(f"helpers called from observer code only, treated as observer code: {sorted(DERIVED_OBSERVERS)}")
     x = ExcFlow(prog, partial_math=lambda f: is_observer_func(f))
